@@ -258,7 +258,13 @@ def gen_case(rng, maxlen=8, mode=None):
     for _ in range(n):
         if rng.random() < 0.5:
             fid += 1
-            ops.append({"reg": gen_reg(rng, fid)})
+            earlier = [o["reg"] for o in ops if "reg" in o]
+            if earlier and rng.random() < 0.3:
+                # the SAME registration signature (detector criteria and priority) again with another converter, after
+                # whatever was registered in between: the latest registration must still win ties
+                ops.append({"reg": dict(rng.choice(earlier), fn=fid)})
+            else:
+                ops.append({"reg": gen_reg(rng, fid)})
         else:
             t = rng.randrange(NCLS)
             ops.append({"conv": t} if mode == "global" and rng.random() < 0.5 else {"res": t})
